@@ -59,7 +59,7 @@ CHECKS = {
     "C17": (
         True,
         "exploration",
-        "sys.monitoring frame taps inside PPO.learn / IPPO._learn_individual + float64 GAE reference + id-encoded rollouts (row alignment) + metamorphic no-leak runs",
+        "sys.monitoring frame taps inside PPO.learn / IPPO._learn_individual + float64 GAE reference + id-encoded rollouts (row alignment) + metamorphic no-leak runs; learn()-boundary wrapper on the real train_on_policy / train_multi_agent_on_policy loops run on scripted environments with a ground-truth log",
         "Rollouts in the exact training-loop format with injective (agent, env, step) ids in every field; tapped "
         "advantages/returns/bootstrap values and the flattened minibatch rows are decoded and compared with the recursion "
         "of the statement; exhaustive done placements for T<=5.",
@@ -80,7 +80,7 @@ CHECKS = {
     "C13": (
         True,
         "fault_enumeration",
-        "reference state machine over all interface-call sequences (length<=3/4) + fault plans injected into scripted sub-environments (raise / sleep past timeout / kill) with structural dead-lock detection from /proc and faulthandler",
+        "reference state machine over all interface-call sequences (length<=3/4) + fault plans injected into scripted sub-environments (raise incl. connection-family and 512 KiB payloads / sleep past timeout / kill) with structural dead-lock detection over all threads from /proc and faulthandler",
         "Misuse sequences are enumerated exhaustively up to the bound and compared with the documented error type and with "
         "counter-predicted return values; worker faults are enumerated over command x invocation x worker x kind (single and "
         "double); every scenario runs in its own driver process, hangs are decided structurally (driver blocked in recv/wait "
@@ -121,7 +121,7 @@ CHECKS = {
     "C08": (
         True,
         "exploration",
-        "differential monitor around learn(): reference Bellman loss on a deep copy of the pre-step agent, leaf-wise soft-update relation via the module leaf walker, metamorphic twin with scrambled next observations of done transitions",
+        "differential monitor around learn(): reference Bellman loss on a deep copy of the pre-step agent, leaf-wise soft-update relation via the module leaf walker, metamorphic twin with scrambled next observations of done transitions; target-policy smoothing noise replayed from the seeded generator; independently randomised online / target weights",
         "DQN/CQN (plain, double), Rainbow (1-step, n-step, PER, combined), DDPG, TD3, MADDPG, MATD3 over gamma, tau, policy "
         "delay, done patterns and consecutive steps, also directly after clone / each mutation kind / checkpoint load; "
         "returned loss, every target parameter and the masking of terminal transitions are checked at every learn step.",
@@ -131,7 +131,7 @@ CHECKS = {
     "C10": (
         True,
         "exploration",
-        "history recording of the raw transition stream with unique ids and identifiable rewards + reference n-step fuser written from the statement; literal copy of train_off_policy's pairing code; exhaustive terminal placements for short streams",
+        "history recording of the raw transition stream with unique ids and identifiable rewards + reference n-step fuser written from the statement; literal copy of train_off_policy's pairing code; exhaustive terminal placements for short streams; learn()-boundary wrapper on the real train_off_policy loop (RainbowDQN, n-step + 1-step buffers) run on an id-encoded scripted environment",
         "Every stored n-step row and its 1-step partner are decoded after every add (also after wrap-around of both buffers) "
         "and compared with the reference fuser; all 2^L terminal placements are enumerated for short streams (sub-space "
         "exhaustive), plus seeded random streams with 1-4 parallel environments.",
@@ -192,7 +192,7 @@ CHECKS = {
     "C18": (
         True,
         "exploration",
-        "sys.monitoring PY_RETURN tap on RainbowDQN._dqn_loss (locals copied from the frame) + float64 per-atom C51 projection reference + metamorphic no-leak pairs; instance taps on the noisy networks' forward",
+        "sys.monitoring PY_RETURN tap on RainbowDQN._dqn_loss (locals copied from the frame) + float64 per-atom C51 projection reference + metamorphic no-leak pairs; instance taps on the noisy networks' forward with a peer evaluation of the online network inside the target-network tap",
         "Atoms 2-51, several supports incl. non-representable v_max, rewards inside/outside/on atoms, done 0/1, gamma, n-step "
         "1-3, combined targets: mass, mean, projection, non-negativity, row isolation, element-wise loss and returned "
         "priorities are checked on every tapped loss evaluation.",
